@@ -18,12 +18,15 @@ import (
 	"fmt"
 	"math/big"
 	"os"
+	"reflect"
+	"sort"
 	"strings"
 	"time"
 
 	"verif/harness/hx"
 
 	simapp "github.com/KiraCore/sekai/app"
+	kiratypes "github.com/KiraCore/sekai/types"
 	govtypes "github.com/KiraCore/sekai/x/gov/types"
 	multistakingtypes "github.com/KiraCore/sekai/x/multistaking/types"
 	tokenstypes "github.com/KiraCore/sekai/x/tokens/types"
@@ -31,12 +34,16 @@ import (
 	tmproto "github.com/cometbft/cometbft/proto/tendermint/types"
 	codectypes "github.com/cosmos/cosmos-sdk/codec/types"
 	"github.com/cosmos/cosmos-sdk/crypto/keys/ed25519"
+	kmultisig "github.com/cosmos/cosmos-sdk/crypto/keys/multisig"
 	"github.com/cosmos/cosmos-sdk/crypto/keys/secp256k1"
 	cryptotypes "github.com/cosmos/cosmos-sdk/crypto/types"
+	multisigtypes "github.com/cosmos/cosmos-sdk/crypto/types/multisig"
 	sdk "github.com/cosmos/cosmos-sdk/types"
 	txtypes "github.com/cosmos/cosmos-sdk/types/tx"
 	"github.com/cosmos/cosmos-sdk/types/tx/signing"
+	"github.com/cosmos/cosmos-sdk/x/auth/migrations/legacytx"
 	authsigning "github.com/cosmos/cosmos-sdk/x/auth/signing"
+	authtx "github.com/cosmos/cosmos-sdk/x/auth/tx"
 	banktypes "github.com/cosmos/cosmos-sdk/x/bank/types"
 	minttypes "github.com/cosmos/cosmos-sdk/x/mint/types"
 	"github.com/ethereum/go-ethereum/common"
@@ -53,15 +60,17 @@ const denom = "ukex"
 // ---------------------------------------------------------------- keys
 
 type keyT struct {
-	idx   int
-	ed    bool
-	seed  string
-	priv  *secp256k1.PrivKey
-	ec    *ecdsa.PrivateKey
-	edp   *ed25519.PrivKey
-	pub   cryptotypes.PubKey
-	caddr sdk.AccAddress // pub.Address(): the address this key controls the cosmos way
-	eaddr common.Address // the 20 bytes this key controls the Ethereum way
+	idx     int
+	multi   bool // 2-of-3 LegacyAminoPubKey over members
+	members []*keyT
+	ed      bool
+	seed    string
+	priv    *secp256k1.PrivKey
+	ec      *ecdsa.PrivateKey
+	edp     *ed25519.PrivKey
+	pub     cryptotypes.PubKey
+	caddr   sdk.AccAddress // pub.Address(): the address this key controls the cosmos way
+	eaddr   common.Address // the 20 bytes this key controls the Ethereum way
 }
 
 func newKey(idx int, seed string, ed bool) *keyT {
@@ -83,7 +92,28 @@ func newKey(idx int, seed string, ed bool) *keyT {
 	k.eaddr = ethcrypto.PubkeyToAddress(ec.PublicKey)
 	return k
 }
+func newMultiKey(idx int, members []*keyT) *keyT {
+	var pubs []cryptotypes.PubKey
+	for _, m := range members {
+		pubs = append(pubs, m.pub)
+	}
+	k := &keyT{idx: idx, multi: true, members: members, seed: "2-of-3 multisig over A, B, M (sorted by address)"}
+	k.pub = kmultisig.NewLegacyAminoPubKey(2, pubs)
+	k.caddr = sdk.AccAddress(k.pub.Address())
+	return k
+}
+
+// single: the key a single signature is made with (first member of a multisig)
+func (k *keyT) single() *keyT {
+	if k.multi {
+		return k.members[0]
+	}
+	return k
+}
 func (k *keyT) coq() string {
+	if k.multi {
+		return fmt.Sprintf("(Multi %d)", k.idx)
+	}
 	if k.ed {
 		return fmt.Sprintf("(Ed %d)", k.idx)
 	}
@@ -92,6 +122,9 @@ func (k *keyT) coq() string {
 func (k *keyT) sign(bz []byte) []byte {
 	var s []byte
 	var err error
+	if k.multi {
+		return k.members[0].sign(bz)
+	}
 	if k.ed {
 		s, err = k.edp.Sign(bz)
 	} else {
@@ -105,7 +138,7 @@ func (k *keyT) sign(bz []byte) []byte {
 
 // ethSign: 65-byte [R||S||V] with yellow-paper V (27/28) over a 32-byte digest
 func (k *keyT) ethSign(digest []byte) []byte {
-	s, err := ethcrypto.Sign(digest, k.ec)
+	s, err := ethcrypto.Sign(digest, k.single().ec)
 	if err != nil {
 		panic(err)
 	}
@@ -116,7 +149,12 @@ func (k *keyT) ethSign(digest []byte) []byte {
 // ---------------------------------------------------------------- independent EIP-712 digest
 // (written from the documented format: domain {name "Kira", version "1", chainId}, primary type =
 // message type name, fields param = JSON of the message, nonce = sequence)
-func eip712Digest(msg sdk.Msg, nonce uint64, chain int64) ([]byte, error) {
+func eip712Digest(msg sdk.Msg, nonce uint64, chain int64) (out []byte, err error) {
+	defer func() {
+		if r := recover(); r != nil {
+			out, err = nil, fmt.Errorf("eip-712 digest: %v", r)
+		}
+	}()
 	name := ""
 	if t, ok := msg.(interface{ Type() string }); ok {
 		name = t.Type()
@@ -180,25 +218,26 @@ type acctT struct {
 }
 
 type hist struct {
-	w      *world
-	id     int
-	keys   []*keyT
-	accts  []*acctT
-	addrID map[string]int
-	sigID  map[string]int
-	txID   map[string]int
-	msgID  map[string]int
-	rawID  map[string]int
-	ver    map[string]bool
-	rec    map[string]bool
-	eth    map[string]bool
-	verL   []string
-	recL   []string
-	ethL   []string
-	steps  []string
-	jsteps []map[string]interface{}
-	init   string
-	check  int // class of CheckTx on the first transaction (-1: not run)
+	w        *world
+	id       int
+	keys     []*keyT
+	accts    []*acctT
+	addrID   map[string]int
+	sigID    map[string]int
+	txID     map[string]int
+	msgID    map[string]int
+	rawID    map[string]int
+	ver      map[string]bool
+	rec      map[string]bool
+	eth      map[string]bool
+	verL     []string
+	recL     []string
+	ethL     []string
+	steps    []string
+	jsteps   []map[string]interface{}
+	multiKey *keyT
+	init     string
+	check    int // class of CheckTx on the first transaction (-1: not run)
 }
 
 func idOf(m map[string]int, k string) int {
@@ -242,9 +281,33 @@ func (h *hist) observe() string {
 
 type slotT struct {
 	attach cryptotypes.PubKey
-	mode   signing.SignMode
+	mode   signing.SignMode // mode of a single signature / of every member signature of a multisignature
 	seq    uint64
 	sig    []byte
+	multi  *signing.MultiSignatureData // when set: the slot carries a MultiSignatureData (sig = its encoding)
+}
+
+func slotModeCoq(s slotT) string {
+	if s.multi != nil {
+		if s.mode == signing.SignMode_SIGN_MODE_LEGACY_AMINO_JSON {
+			return "MMultiAmino"
+		}
+		return "MMultiDirect"
+	}
+	return modeCoq(s.mode)
+}
+func slotSigBytes(s slotT) []byte {
+	if s.multi != nil {
+		_, bz := authtx.SignatureDataToModeInfoAndSig(s.multi)
+		return bz
+	}
+	return s.sig
+}
+func slotSigData(s slotT) signing.SignatureData {
+	if s.multi != nil {
+		return s.multi
+	}
+	return &signing.SingleSignatureData{SignMode: s.mode, Signature: append([]byte{}, s.sig...)}
 }
 
 type txPlan struct {
@@ -253,6 +316,7 @@ type txPlan struct {
 	payer  string
 	memo   string
 	victim int // index of the slot the scenario is about
+	fee    int64
 }
 
 func (h *hist) encode(p *txPlan) ([]byte, []byte, []byte) {
@@ -276,14 +340,17 @@ func (h *hist) encode(p *txPlan) ([]byte, []byte, []byte) {
 			}
 			si.PublicKey = a
 		}
-		sis = append(sis, si)
 		sg := s.sig
+		if s.multi != nil {
+			si.ModeInfo, sg = authtx.SignatureDataToModeInfoAndSig(s.multi)
+		}
+		sis = append(sis, si)
 		if sg == nil {
 			sg = []byte{}
 		}
 		sigs = append(sigs, sg)
 	}
-	ai := &txtypes.AuthInfo{SignerInfos: sis, Fee: &txtypes.Fee{Amount: sdk.NewCoins(sdk.NewInt64Coin(denom, 100)), GasLimit: 200000, Payer: p.payer}}
+	ai := &txtypes.AuthInfo{SignerInfos: sis, Fee: &txtypes.Fee{Amount: sdk.NewCoins(sdk.NewInt64Coin(denom, feeOf(p))), GasLimit: 200000, Payer: p.payer}}
 	bodyBz, err := body.Marshal()
 	if err != nil {
 		panic(err)
@@ -298,6 +365,13 @@ func (h *hist) encode(p *txPlan) ([]byte, []byte, []byte) {
 		panic(err)
 	}
 	return bz, bodyBz, aiBz
+}
+
+func feeOf(p *txPlan) int64 {
+	if p.fee > 0 {
+		return p.fee
+	}
+	return 100
 }
 
 func (h *hist) decode(bz []byte) sdk.Tx {
@@ -340,19 +414,75 @@ func (h *hist) rawEth(k *keyT, nonce uint64, chain int64, to common.Address, uke
 	return bz
 }
 
+// ---------------------------------------------------------------- catalogue of registered message types
+// Every sdk.Msg implementation in the interface registry is instantiated generically: a zero value
+// whose top-level string / AccAddress / ValAddress fields are filled with the signer's address.
+// A type is used when ValidateBasic passes, GetSigners = [signer] and an honest DIRECT transaction
+// carrying it passes the ante handler (calibration run, not part of the cases).
+
+type msgType struct {
+	url     string
+	fee     int64
+	aminoOK bool
+	eipOK   bool // the message has a type name, so an EIP-712 digest exists
+}
+
+var catalogue []msgType
+var catalogueSkipped = map[string]string{}
+
+func genericMsg(reg codectypes.InterfaceRegistry, url string, addr sdk.AccAddress) (m sdk.Msg) {
+	defer func() {
+		if recover() != nil {
+			m = nil
+		}
+	}()
+	pm, err := reg.Resolve(url)
+	if err != nil {
+		return nil
+	}
+	msg, ok := pm.(sdk.Msg)
+	if !ok {
+		return nil
+	}
+	v := reflect.ValueOf(msg).Elem()
+	for i := 0; i < v.NumField(); i++ {
+		f := v.Field(i)
+		if !f.CanSet() {
+			continue
+		}
+		switch f.Interface().(type) {
+		case string:
+			f.SetString(addr.String())
+		case sdk.AccAddress:
+			f.Set(reflect.ValueOf(addr))
+		case sdk.ValAddress:
+			f.Set(reflect.ValueOf(sdk.ValAddress(addr)))
+		}
+	}
+	if msg.ValidateBasic() != nil {
+		return nil
+	}
+	sg := msg.GetSigners()
+	if len(sg) != 1 || !sg[0].Equals(addr) {
+		return nil
+	}
+	return msg
+}
+
 // ---------------------------------------------------------------- scenario
 
 type scenario struct {
-	Msg      string `json:"msg"`      // bank_send identity two_msgs two_signers fee_payer ethereum_tx
-	Mode     string `json:"mode"`     // direct amino eip712 raw-eth other
-	Attach   string `json:"attach"`   // none right wrong ed
-	Acct     string `json:"acct"`     // new onrecord eth-new eth-onrecord missing
-	Strategy string `json:"strategy"` // see strategies
-	Follow   string `json:"follow"`   // none replay next-replay
+	Msg      string `json:"msg"`                // bank_send identity two_msgs two_signers fee_payer ethereum_tx
+	Mode     string `json:"mode"`               // direct amino eip712 raw-eth other
+	Attach   string `json:"attach"`             // none right wrong ed
+	Acct     string `json:"acct"`               // new onrecord eth-new eth-onrecord missing
+	Strategy string `json:"strategy"`           // see strategies
+	Follow   string `json:"follow"`             // none replay next-replay resequence
+	TypeURL  string `json:"type_url,omitempty"` // msg = any: the registered message type used
 }
 
 var strategies = []string{"honest", "attacker-key", "bitflip", "seq-plus", "seq-minus", "signed-seq-plus", "chain", "othermsg", "accnum",
-	"empty-sig", "feepayer-unsigned", "eth-forged-sender", "eth-feepayer-unsigned", "eth-wrong-nonce", "eth-wrong-chain", "eth-unprotected", "swap-slots"}
+	"empty-sig", "feepayer-unsigned", "rewrap-fee", "multi-one-sig", "eth-forged-sender", "eth-feepayer-unsigned", "eth-wrong-nonce", "eth-wrong-chain", "eth-unprotected", "swap-slots"}
 
 func (s scenario) label() string {
 	return fmt.Sprintf("%s:%s:%s:%s:%s", s.Msg, s.Mode, s.Acct, s.Attach, s.Strategy)
@@ -370,7 +500,7 @@ type jhist struct {
 
 func modeOf(m string) signing.SignMode {
 	switch m {
-	case "amino":
+	case "amino", "multi-amino":
 		return signing.SignMode_SIGN_MODE_LEGACY_AMINO_JSON
 	case "other":
 		return signing.SignMode_SIGN_MODE_TEXTUAL
@@ -393,6 +523,9 @@ func (h *hist) setupAccount(name string, key *keyT, acct string, seq uint64) *ac
 	if strings.HasPrefix(acct, "eth-") {
 		a.style = "eth"
 		a.addr = sdk.AccAddress(key.eaddr.Bytes())
+	}
+	if strings.HasPrefix(acct, "multisig-") {
+		a.style = "multisig"
 	}
 	if strings.HasSuffix(acct, "onrecord") || acct == "onrecord-maxseq" {
 		a.state = "onrecord"
@@ -469,6 +602,17 @@ func (h *hist) build(sc scenario, r *hx.Rng, A, B *acctT, attacker *keyT, edKey 
 		p.msgs = []sdk.Msg{idMsg(A)}
 	case "register_delegator":
 		p.msgs = []sdk.Msg{multistakingtypes.NewMsgRegisterDelegator(A.addr.String())}
+	case "any":
+		m := genericMsg(h.w.enc.InterfaceRegistry, sc.TypeURL, A.addr)
+		if m == nil {
+			panic("catalogue type no longer instantiates: " + sc.TypeURL)
+		}
+		p.msgs = []sdk.Msg{m}
+		for _, c := range catalogue {
+			if c.url == sc.TypeURL {
+				p.fee = c.fee
+			}
+		}
 	case "two_msgs":
 		p.msgs = []sdk.Msg{banktypes.NewMsgSend(A.addr, recipient, amount), idMsg(A)}
 	case "two_signers":
@@ -539,13 +683,13 @@ func (h *hist) build(sc scenario, r *hx.Rng, A, B *acctT, attacker *keyT, edKey 
 		ethChain = 1
 	case "eth-unprotected":
 		unprotected = true
-	case "swap-slots", "feepayer-unsigned":
+	case "swap-slots", "feepayer-unsigned", "rewrap-fee", "multi-one-sig":
 	default:
 		panic("strategy " + sc.Strategy)
 	}
 
 	if sc.Msg == "ethereum_tx" {
-		data := h.rawEth(ethKey, ethNonce, ethChain, common.BytesToAddress(recipient), int64(7+nonceTag), unprotected)
+		data := h.rawEth(ethKey.single(), ethNonce, ethChain, common.BytesToAddress(recipient), int64(7+nonceTag), unprotected)
 		if sc.Strategy == "bitflip" && sc.Mode == "raw-eth" {
 			data[len(data)-3] ^= 0x10 // damage the raw transaction's own signature
 		}
@@ -615,8 +759,47 @@ func (h *hist) build(sc scenario, r *hx.Rng, A, B *acctT, attacker *keyT, edKey 
 				sb = []byte("no-sign-bytes")
 			}
 			sig = sp.key.sign(sb)
+		case "multi-direct", "multi-amino":
+			// a MultiSignatureData over the members of the account's multisig key (or over A, B, M when
+			// the account is not a multisig account): which members sign depends on the strategy
+			members := h.multiKey.members
+			signers := []*keyT{members[0], members[1]}
+			switch sc.Strategy {
+			case "multi-one-sig":
+				signers = signers[:1]
+			case "attacker-key", "eth-forged-sender":
+				signers = []*keyT{attacker, attacker}
+			}
+			mk := func(sb []byte) *signing.MultiSignatureData {
+				ms := multisigtypes.NewMultisig(len(members))
+				for j, k := range signers {
+					sg := []byte("placeholder")
+					if sb != nil {
+						sg = k.sign(sb)
+						if sp.flip && j == 0 {
+							sg[len(sg)/2] ^= 0x04
+						}
+						if sp.empty {
+							sg = []byte{}
+						}
+					}
+					multisigtypes.AddSignature(ms, &signing.SingleSignatureData{SignMode: mode, Signature: sg}, j)
+				}
+				return ms
+			}
+			// the mode info (bit array) is part of the DIRECT sign bytes: fix it first, then sign
+			p.slots[i].multi = mk(nil)
+			sb := h.signBytes(signed, mode, sp.chain, sp.accnum, sp.signSeq, s.addr)
+			if sb == nil {
+				sb = []byte("no-sign-bytes")
+			}
+			p.slots[i].multi = mk(sb)
+			p.slots[i].sig = slotSigBytes(p.slots[i])
+			continue
 		case "eip712":
-			var m sdk.Msg = signed.msgs[0]
+			// the chain hashes the JSON of the message AS DECODED from the transaction bytes
+			sbz, _, _ := h.encode(signed)
+			var m sdk.Msg = h.decode(sbz).GetMsgs()[0]
 			ch := int64(ethChainID)
 			if sc.Strategy == "chain" {
 				ch = 1
@@ -679,7 +862,8 @@ func (h *hist) msgCoq(m sdk.Msg) string {
 	return fmt.Sprintf("MPlain %d %s", id, hx.List(sg))
 }
 
-func (h *hist) step(p *txPlan, bz []byte, what string) (accepted bool) {
+// describe: the Coq term of the transaction and its real signer list; records the oracle values at the CURRENT state
+func (h *hist) describe(p *txPlan, bz []byte) (string, []string) {
 	w := h.w
 	_, bodyBz, aiBz := h.encode(p)
 	tid := idOf(h.txID, string(bodyBz)+"|"+string(aiBz))
@@ -701,12 +885,12 @@ func (h *hist) step(p *txPlan, bz []byte, what string) (accepted bool) {
 	// slots + oracle tables at the current state
 	var slots []string
 	for i, s := range p.slots {
-		sid := idOf(h.sigID, string(s.sig))
+		sid := idOf(h.sigID, string(slotSigBytes(s)))
 		att := "None"
 		if s.attach != nil {
 			att = h.pkCoq(s.attach)
 		}
-		slots = append(slots, fmt.Sprintf("mkSlot %s %s %d %d", att, modeCoq(s.mode), sid, s.seq))
+		slots = append(slots, fmt.Sprintf("mkSlot %s %s %d %d", att, slotModeCoq(s), sid, s.seq))
 		if i >= len(signerAddrs) {
 			continue
 		}
@@ -718,9 +902,9 @@ func (h *hist) step(p *txPlan, bz []byte, what string) (accepted bool) {
 		if ctx.BlockHeight() == 0 {
 			accnum = 0
 		}
-		doc := fmt.Sprintf("SignDoc %s 0 %d %d %d", modeCoq(s.mode), accnum, acc.GetSequence(), tid)
+		doc := fmt.Sprintf("SignDoc %s 0 %d %d %d", slotModeCoq(s), accnum, acc.GetSequence(), tid)
 		sd := authsigning.SignerData{Address: acc.GetAddress().String(), ChainID: ctx.ChainID(), AccountNumber: accnum, Sequence: acc.GetSequence()}
-		sigData := &signing.SingleSignatureData{SignMode: s.mode, Signature: append([]byte{}, s.sig...)}
+		sigData := slotSigData(s)
 		for _, k := range h.keys {
 			okv := false
 			sd.PubKey = k.pub
@@ -736,10 +920,13 @@ func (h *hist) step(p *txPlan, bz []byte, what string) (accepted bool) {
 		// Ethereum recovery over the digest the chain uses for this slot
 		var digest []byte
 		dcoq := ""
+		if s.multi != nil {
+			continue // the Ethereum path refuses a MultiSignatureData before looking at it
+		}
 		if s.mode == signing.SignMode_SIGN_MODE_DIRECT {
 			if len(p.msgs) == 1 {
 				if _, isEth := p.msgs[0].(*tokenstypes.MsgEthereumTx); !isEth {
-					d, err := eip712Digest(p.msgs[0], acc.GetSequence(), ethChainID)
+					d, err := eip712Digest(tx.GetMsgs()[0], acc.GetSequence(), ethChainID)
 					if err == nil {
 						a, _ := codectypes.NewAnyWithValue(p.msgs[0])
 						digest, dcoq = d, fmt.Sprintf("DEip %d %d", idOf(h.msgID, string(a.Value)+a.TypeUrl), acc.GetSequence())
@@ -776,18 +963,30 @@ func (h *hist) step(p *txPlan, bz []byte, what string) (accepted bool) {
 	}
 	txCoq := fmt.Sprintf("mkTx %d %s %s %s", tid, hx.List(msgs), hx.List(slots), payer)
 
+	return txCoq, signerIDs
+}
+
+func (h *hist) step(p *txPlan, bz []byte, what string) (accepted bool) {
+	w := h.w
+	txCoq, signerIDs := h.describe(p, bz)
 	// deliver through ABCI
 	var res abci.ResponseDeliverTx
 	pn := hx.Try(func() { res = w.app.DeliverTx(abci.RequestDeliverTx{Tx: bz}) })
 	w.delivered++
 	class := 1
+	msgFailed := false
 	switch {
 	case pn != "":
 		class = 3 // a panic that escaped DeliverTx
 	case res.Code == 0:
 		class = 0
-	case res.Code == 111222:
+	case res.Code == 111222 && len(res.Events) == 0:
 		class = 2
+	case len(res.Events) > 0:
+		// the ante handler accepted the transaction (fee charged, sequences incremented, ante events
+		// returned) and a message failed afterwards: the transaction DID change state
+		class = 0
+		msgFailed = true
 	}
 	post := h.observe()
 	h.steps = append(h.steps, fmt.Sprintf("mkStep (%s) %s %d %s", txCoq, hx.List(signerIDs), class, post))
@@ -795,7 +994,7 @@ func (h *hist) step(p *txPlan, bz []byte, what string) (accepted bool) {
 	if len(lg) > 160 {
 		lg = lg[:160]
 	}
-	h.jsteps = append(h.jsteps, map[string]interface{}{"what": what, "tx_hex": hex.EncodeToString(bz), "code": res.Code, "codespace": res.Codespace, "log": lg, "panic": pn, "post": post})
+	h.jsteps = append(h.jsteps, map[string]interface{}{"what": what, "tx_hex": hex.EncodeToString(bz), "code": res.Code, "codespace": res.Codespace, "log": lg, "panic": pn, "message_failed_after_ante": msgFailed, "post": post})
 	return class == 0
 }
 
@@ -829,15 +1028,84 @@ func main() {
 	var queue []*pending
 	firstAccepted := map[int]bool{}
 	nextID := 0
-	prep := func(sc scenario) int {
-		h := &hist{w: w, id: nextID, addrID: map[string]int{}, sigID: map[string]int{}, txID: map[string]int{}, msgID: map[string]int{}, rawID: map[string]int{},
+	newHist := func(id int) *hist {
+		return &hist{w: w, id: id, addrID: map[string]int{}, sigID: map[string]int{}, txID: map[string]int{}, msgID: map[string]int{}, rawID: map[string]int{},
 			ver: map[string]bool{}, rec: map[string]bool{}, eth: map[string]bool{}, check: -1}
+	}
+	// ---- calibration of the message-type catalogue (not part of the cases)
+	{
+		urls := w.enc.InterfaceRegistry.ListImplementations(sdk.MsgInterfaceProtoName)
+		sort.Strings(urls)
+		for i, url := range urls {
+			k := newKey(1, fmt.Sprintf("calibration-%d", i), false)
+			h := newHist(-1)
+			h.keys = []*keyT{k}
+			A := h.setupAccount("A", k, "new", 0)
+			m := genericMsg(w.enc.InterfaceRegistry, url, A.addr)
+			if m == nil {
+				catalogueSkipped[url] = "generic instance fails ValidateBasic / GetSigners"
+				continue
+			}
+			fee := int64(100)
+			if ef := w.app.CustomGovKeeper.GetExecutionFee(w.ctx(), kiratypes.MsgType(m)); ef != nil {
+				if int64(ef.ExecutionFee) > fee {
+					fee = int64(ef.ExecutionFee)
+				}
+				if int64(ef.FailureFee) > fee {
+					fee = int64(ef.FailureFee)
+				}
+			}
+			_, accnum, _ := h.accState(A)
+			pl := &txPlan{msgs: []sdk.Msg{m}, slots: []slotT{{attach: k.pub, mode: signing.SignMode_SIGN_MODE_DIRECT, seq: 0}}, fee: fee, memo: "calibration"}
+			pl.slots[0].sig = k.sign(h.signBytes(pl, signing.SignMode_SIGN_MODE_DIRECT, w.ctx().ChainID(), accnum, 0, A.addr))
+			bz, _, _ := h.encode(pl)
+			var res abci.ResponseDeliverTx
+			pn := hx.Try(func() { res = w.app.DeliverTx(abci.RequestDeliverTx{Tx: bz}) })
+			if pn != "" || !(res.Code == 0 || len(res.Events) > 0) {
+				lg := res.Log
+				if len(lg) > 100 {
+					lg = lg[:100]
+				}
+				catalogueSkipped[url] = "honest DIRECT transaction does not pass the ante handler: " + pn + lg
+				continue
+			}
+			aminoOK := h.signBytes(pl, signing.SignMode_SIGN_MODE_LEGACY_AMINO_JSON, w.ctx().ChainID(), accnum, 1, A.addr) != nil
+			_, eipErr := eip712Digest(m, 0, ethChainID)
+			catalogue = append(catalogue, msgType{url: url, fee: fee, aminoOK: aminoOK, eipOK: eipErr == nil})
+		}
+		_ = legacytx.StdSignBytes
+	}
+	prep := func(sc scenario) int {
+		if sc.Msg == "any" {
+			if len(catalogue) == 0 {
+				sc.Msg = "identity"
+			} else {
+				if sc.TypeURL == "" {
+					sc.TypeURL = catalogue[r.Intn(len(catalogue))].url
+				}
+				for _, c := range catalogue {
+					if c.url == sc.TypeURL && ((!c.aminoOK && sc.Mode == "amino") || (!c.eipOK && sc.Mode == "eip712")) {
+						sc.Mode = "direct"
+					}
+				}
+			}
+		}
+		if sc.Msg == "ethereum_tx" && sc.Mode == "multi-amino" && sc.Strategy == "multi-one-sig" {
+			sc.Strategy = "honest" // (the SDK counts the member signatures before it asks for the amino bytes, which panic for this message)
+		}
+		h := newHist(nextID)
 		nextID++
 		tag := fmt.Sprintf("s%d-h%d-", seed, h.id)
 		kA, kB, kX := newKey(1, tag+"A", false), newKey(2, tag+"B", false), newKey(3, tag+"X", false)
 		kE := newKey(4, tag+"E", true)
-		h.keys = []*keyT{kA, kB, kX, kE}
-		A := h.setupAccount("A", kA, sc.Acct, uint64(r.Intn(4)))
+		kM := newKey(5, tag+"M", false)
+		h.multiKey = newMultiKey(6, []*keyT{kA, kB, kM})
+		h.keys = []*keyT{kA, kB, kX, kE, kM, h.multiKey}
+		ownerKey := kA
+		if strings.HasPrefix(sc.Acct, "multisig-") {
+			ownerKey = h.multiKey
+		}
+		A := h.setupAccount("A", ownerKey, sc.Acct, uint64(r.Intn(4)))
 		B := h.setupAccount("B", kB, "onrecord", uint64(r.Intn(3)))
 		queue = append(queue, &pending{sc: sc, h: h, A: A, B: B, kX: kX, kE: kE})
 		return h.id
@@ -860,8 +1128,21 @@ func main() {
 		p, _ := h.build(sc, r, A, B, kX, kE, 0)
 		bz, _, _ := h.encode(p)
 		// CheckTx first (its own state: the committed one, where the accounts are as in h.init)
+		checkTxCoq := "None"
+		checkBz := bz
+		if sc.Strategy == "rewrap-fee" {
+			// CheckTx sees the transaction as its signer made it; DeliverTx gets the same messages and the
+			// same signatures re-wrapped by somebody else with a 50x fee and another memo
+			t1, _ := h.describe(p, bz)
+			checkTxCoq = "(Some (" + t1 + "))"
+			q2 := *p
+			q2.fee = 50 * feeOf(p)
+			q2.memo = p.memo + " re-wrapped"
+			p = &q2
+			bz, _, _ = h.encode(p)
+		}
 		var cres abci.ResponseCheckTx
-		cpn := hx.Try(func() { cres = w.app.CheckTx(abci.RequestCheckTx{Tx: bz, Type: abci.CheckTxType_New}) })
+		cpn := hx.Try(func() { cres = w.app.CheckTx(abci.RequestCheckTx{Tx: checkBz, Type: abci.CheckTxType_New}) })
 		h.check = classOf(cres.Code, cpn)
 		ok := h.step(p, bz, "scenario")
 		accepted = append(accepted, ok)
@@ -869,6 +1150,9 @@ func main() {
 			hs := scenario{Msg: "bank_send", Mode: "direct", Attach: "right", Acct: sc.Acct, Strategy: "honest"}
 			if A.style == "eth" {
 				hs.Mode = "eip712"
+			}
+			if A.style == "multisig" {
+				hs.Mode = "multi-direct"
 			}
 			if A.state != "missing" {
 				p2, _ := h.build(hs, r, A, B, kX, kE, tagN)
@@ -903,8 +1187,8 @@ func main() {
 		for _, k := range h.keys {
 			apk = append(apk, fmt.Sprintf("(%s, %d)", k.coq(), h.addr(k.caddr)))
 		}
-		coq = append(coq, fmt.Sprintf("mkHist %s (mkTabs %s %s %s %s) %s %s %s",
-			hx.B(w.ctx().BlockHeight() == 0), hx.List(apk), hx.List(h.verL), hx.List(h.recL), hx.List(h.ethL), hx.Z(int64(h.check)), h.init, hx.List(h.steps)))
+		coq = append(coq, fmt.Sprintf("mkHist %s (mkTabs %s %s %s %s) %s %s %s %s",
+			hx.B(w.ctx().BlockHeight() == 0), hx.List(apk), hx.List(h.verL), hx.List(h.recL), hx.List(h.ethL), hx.Z(int64(h.check)), checkTxCoq, h.init, hx.List(h.steps)))
 		kind := "rejected"
 		if accepted[0] {
 			kind = "accepted"
@@ -915,10 +1199,13 @@ func main() {
 			accs = append(accs, map[string]interface{}{"name": a.name, "id": h.addr(a.addr), "addr": a.addr.String(), "style": a.style, "state": a.state})
 		}
 		js = append(js, jhist{Scenario: sc, Kind: kind, Keys: map[string]string{"A": h.keys[0].seed, "B": h.keys[1].seed, "attacker": kX.seed, "ed25519": kE.seed}, Accounts: accs, Steps: h.jsteps, Accepted: accepted,
-			CheckTx: map[string]interface{}{"code": cres.Code, "log": cres.Log, "panic": cpn}})
+			CheckTx: map[string]interface{}{"code": cres.Code, "log": cres.Log, "panic": cpn, "tx_hex": hex.EncodeToString(checkBz)}})
 		dist.Inc("first:" + kind)
 		dist.Inc(fmt.Sprintf("checktx-class:%d", h.check))
 		dist.Inc("msg:" + sc.Msg)
+		if sc.TypeURL != "" {
+			dist.Inc("type:" + sc.TypeURL)
+		}
 		dist.Inc("mode:" + sc.Mode)
 		dist.Inc("acct:" + sc.Acct)
 		dist.Inc("attach:" + sc.Attach)
@@ -949,10 +1236,11 @@ func main() {
 		return id
 	}
 
-	msgsK := []string{"bank_send", "identity", "register_delegator", "two_msgs", "two_signers", "fee_payer", "ethereum_tx"}
-	modes := []string{"direct", "amino", "eip712", "raw-eth", "other"}
+	msgsK := []string{"bank_send", "identity", "any", "any", "any", "two_msgs", "two_signers", "fee_payer", "ethereum_tx"}
+	modes := []string{"direct", "amino", "eip712", "raw-eth", "other", "multi-direct", "multi-amino"}
 	attaches := []string{"none", "right", "wrong", "ed"}
 	accts := []string{"new", "onrecord", "eth-new", "eth-onrecord"}
+	acctsAll := []string{"new", "onrecord", "eth-new", "eth-onrecord", "multisig-new", "multisig-onrecord"}
 	follows := []string{"none", "replay", "next-replay", "resequence"}
 
 	// ---- probes: which variant of the code is running (model selection; the whole run must then
@@ -1011,10 +1299,49 @@ func main() {
 			}
 		}
 	}
+	// ---- systematic part 3b: the one-signer rule of the Ethereum path with everybody signing honestly
+	for _, m := range []string{"fee_payer", "two_signers"} {
+		for _, ac := range []string{"eth-new", "eth-onrecord", "onrecord"} {
+			for _, md := range []string{"eip712", "direct"} {
+				run(scenario{Msg: m, Mode: md, Attach: "right", Acct: ac, Strategy: "honest", Follow: "replay"})
+			}
+		}
+	}
+	// ---- systematic part 4: every registered message type of the catalogue (one or more per module)
+	for _, c := range catalogue {
+		run(scenario{Msg: "any", TypeURL: c.url, Mode: "direct", Attach: "right", Acct: "new", Strategy: "honest", Follow: "replay"})
+		run(scenario{Msg: "any", TypeURL: c.url, Mode: "direct", Attach: "wrong", Acct: "onrecord", Strategy: "attacker-key", Follow: "none"})
+		run(scenario{Msg: "any", TypeURL: c.url, Mode: "amino", Attach: "none", Acct: "onrecord", Strategy: "honest", Follow: "replay"})
+		run(scenario{Msg: "any", TypeURL: c.url, Mode: "eip712", Attach: "none", Acct: "eth-onrecord", Strategy: "honest", Follow: "resequence"})
+		run(scenario{Msg: "any", TypeURL: c.url, Mode: "eip712", Attach: "wrong", Acct: "new", Strategy: "attacker-key", Follow: "none"})
+	}
+	// ---- systematic part 5: what a signature covers (fee / memo re-wrapped under the same signature)
+	for _, md := range []string{"direct", "amino", "eip712", "raw-eth"} {
+		for _, ac := range accts {
+			m := "bank_send"
+			if md == "raw-eth" {
+				m = "ethereum_tx"
+			}
+			run(scenario{Msg: m, Mode: md, Attach: "right", Acct: ac, Strategy: "rewrap-fee", Follow: "replay"})
+		}
+	}
+	// ---- systematic part 6: multisig keys and MultiSignatureData
+	for _, md := range []string{"multi-direct", "multi-amino", "direct", "eip712"} {
+		for _, ac := range []string{"multisig-new", "multisig-onrecord", "onrecord", "eth-onrecord"} {
+			for _, st := range []string{"honest", "multi-one-sig", "attacker-key", "bitflip", "seq-plus", "othermsg", "rewrap-fee"} {
+				if st == "multi-one-sig" && !strings.HasPrefix(md, "multi-") {
+					continue
+				}
+				for _, at := range []string{"right", "none"} {
+					run(scenario{Msg: "bank_send", Mode: md, Attach: at, Acct: ac, Strategy: st, Follow: "next-replay"})
+				}
+			}
+		}
+	}
 	// ---- random part: the full product
 	for i := 0; i < *n; i++ {
 		sc := scenario{Msg: msgsK[r.Intn(len(msgsK))], Mode: modes[r.Intn(len(modes))], Attach: attaches[r.Intn(len(attaches))],
-			Acct: accts[r.Intn(len(accts))], Strategy: strategies[r.Intn(len(strategies))], Follow: follows[r.Intn(len(follows))]}
+			Acct: acctsAll[r.Intn(len(acctsAll))], Strategy: strategies[r.Intn(len(strategies))], Follow: follows[r.Intn(len(follows))]}
 		if r.Chance(3) {
 			sc.Acct = "missing"
 		}
@@ -1043,6 +1370,6 @@ func main() {
 	out.WriteFile("cases.txt", strings.Join(coq, "\n")+"\n")
 	out.WriteJSON("meta.json", map[string]string{"case_type": "c02_case", "mismatch_fn": "c02_mismatches code_variant", "violation_fn": "c02_violations"})
 	out.WriteJSON("cases.json", js)
-	out.WriteJSON("dist.json", map[string]interface{}{"seed": seed, "histories": len(js), "by": dist, "code_variant": map[string]bool{"raw_eth_sender_checked": !forgedAccepted, "eth_path_continues_with_remaining_signers": !unsignedPayerAccepted}})
+	out.WriteJSON("dist.json", map[string]interface{}{"seed": seed, "histories": len(js), "by": dist, "message_types_used": len(catalogue), "message_types_skipped": catalogueSkipped, "code_variant": map[string]bool{"raw_eth_sender_checked": !forgedAccepted, "eth_path_continues_with_remaining_signers": !unsignedPayerAccepted}})
 	fmt.Fprintf(os.Stderr, "c02: %d histories\n", len(js))
 }
